@@ -9,8 +9,12 @@
    (C14_real_schemas_wf).  [good_t s v] = the value holds no nil where a plain
    pointer is expected and is a value its own custom decoder gives back.
    [lenient_bytes] = decoding goes through one of the places where the Go
-   decoder accepts a second wire form (rlp:"nil" pointers: both empty kinds;
-   Validator.Expelled; ValidatorIndex; EvidenceDoubleSign). *)
+   decoder still accepts a second wire form (rlp:"nil" pointers: both empty
+   kinds; EvidenceDoubleSign: entries in any order).  Validator.Expelled,
+   ValidatorIndex and the hash length / duplicates / map order of
+   EvidenceDoubleSign were such places until the fix commits bcc4703, 8fe8f02,
+   201ba78; the model follows the repaired code and they are now covered by
+   the plain canonical theorems. *)
 From VF.C14 Require Import Rlp RlpProofs Typed TypedProofs Model ModelProofs Bridge.
 From VF.gen Require Import C14Schemas.
 Local Open Scope N_scope.
@@ -75,45 +79,56 @@ Theorem C14_accept_canonical_holds_outside :
 Proof. exact (accept_canonical cenc cdec). Qed.
 Print Assumptions C14_accept_canonical_holds_outside.
 
-(* types without an rlp:"nil" pointer and without one of the three normalising
-   custom decoders have no lenient place at all *)
+(* types without an rlp:"nil" pointer and other than EvidenceDoubleSign have no
+   lenient place at all *)
 Theorem C14_accept_canonical_strict :
   forall s b v, wf_schema s = true -> strict s = true ->
     decode_t s b = Some v -> encode_t s v = Some b.
 Proof. exact accept_canonical_strict. Qed.
 Print Assumptions C14_accept_canonical_strict.
 
-(* ... which are all regenerated types except the ten listed in [lenient_types] *)
+(* ... which are all regenerated types except the seven listed in [lenient_types]
+   (the transaction and its containers, EvidenceDoubleSign) *)
 Theorem C14_real_types_canonical :
   forall ty s b v, In (ty, s) all_schemas -> existsb (N.eqb ty) lenient_types = false ->
     decode_t s b = Some v -> encode_t s v = Some b.
 Proof. exact real_strict_canonical. Qed.
 Print Assumptions C14_real_types_canonical.
 
-(* the lenient places, characterised: for an rlp:"nil" byte array exactly the
-   empty list; for a Validator exactly an Expelled byte other than 0 and 1; a
-   strictly increasing address list is the one accepted form of a ValidatorIndex *)
+(* the repaired custom decoders give back exactly what they read, and reject
+   what their encoder never writes *)
+Theorem C14_custom_coders_canonical :
+  forall id wv v, normalising id = false -> cdec id wv = Some v -> cenc id v = Some wv.
+Proof. exact custom_canon. Qed.
+Print Assumptions C14_custom_coders_canonical.
+
+Theorem C14_validator_expelled_rejected :
+  forall a e, 2 <= e -> cdec id_Validator (VList [a; VNum e]) = None.
+Proof. exact validator_expelled_rejected. Qed.
+Print Assumptions C14_validator_expelled_rejected.
+
+Theorem C14_validator_index_unsorted_rejected :
+  forall bs, sorted_strict bs = false -> cdec id_ValidatorIndex (VList (map VBytes bs)) = None.
+Proof. exact validator_index_unsorted_rejected. Qed.
+Print Assumptions C14_validator_index_unsorted_rejected.
+
+(* the two remaining lenient places, characterised: for an rlp:"nil" byte array
+   exactly the empty list; EvidenceDoubleSign entries with 32-byte hashes in
+   strictly increasing order are the one form that is kept as it is *)
 Theorem C14_finding_nil_kind :
   forall n it, 1 <= n -> (lenient_t (SOpt (SArr n)) it = true <-> it = Lst []).
 Proof. exact opt_arr_lenient. Qed.
 Print Assumptions C14_finding_nil_kind.
 
-Theorem C14_finding_expelled :
-  forall a e v, cdec id_Validator (VList [a; VNum e]) = Some v ->
-    (cenc id_Validator v = Some (VList [a; VNum e]) <-> e = 0 \/ e = 1).
-Proof. exact validator_lenient. Qed.
-Print Assumptions C14_finding_expelled.
-
-Theorem C14_finding_index_sorted_partial :
-  forall l, sorted_strict l = true ->
-    cdec id_ValidatorIndex (VList (map VBytes l)) = Some (VList (map VBytes l)) /\
-    cenc id_ValidatorIndex (VList (map VBytes l)) = Some (VList (map VBytes l)).
-Proof. exact validator_index_sorted_canonical. Qed.
-Print Assumptions C14_finding_index_sorted_partial.
-(* partial: the converse (an accepted list that is not strictly increasing is
-   re-written differently) and the corresponding statement for
-   EvidenceDoubleSign are exhibited by witnesses (Bridge.v) but not proved in
-   general. *)
+Theorem C14_finding_evidence_sorted_partial :
+  forall r i signs kvs, map_opt as_sign signs = Some kvs -> sorted_strict (map fst kvs) = true ->
+    cdec id_EvidenceDoubleSign (VList [r; i; VList signs]) = Some (VList [r; i; VList signs]) /\
+    cenc id_EvidenceDoubleSign (VList [r; i; VList signs]) = Some (VList [r; i; VList signs]).
+Proof. exact evidence_sorted_canonical. Qed.
+Print Assumptions C14_finding_evidence_sorted_partial.
+(* partial: the converse (an accepted entry list that is not strictly increasing
+   is re-written differently) is exhibited by a witness (Bridge.w_evidence_unsorted)
+   but not proved in general. *)
 
 (* ---- 4. hostile bytes: the specification decoder is total and linear ------------------ *)
 (* [decode] is a total Coq function (no exception, no divergence) and what it
@@ -162,14 +177,17 @@ Proof.
 Qed.
 Print Assumptions C14_nonvacuous_roundtrip.
 
-(* accepted, not lenient (hypotheses of holds_outside) - and the lenient witness is seen as such *)
+(* accepted, not lenient (hypotheses of holds_outside) - the two open witnesses are seen
+   as lenient, the three repaired ones are rejected *)
 Example C14_nonvacuous_holds_outside :
   (exists v, decode_t S_types_Transaction w_tx_re = Some v) /\
   lenient_bytes cenc cdec S_types_Transaction w_tx_re = false /\
   lenient_bytes cenc cdec S_types_Transaction w_tx = true /\
-  lenient_bytes cenc cdec S_state_Validator w_validator = true /\
-  lenient_bytes cenc cdec S_state_ValidatorIndex w_index = true /\
-  lenient_bytes cenc cdec S_staking_EvidenceDoubleSign w_evidence = true.
+  lenient_bytes cenc cdec S_staking_EvidenceDoubleSign w_evidence_unsorted = true /\
+  lenient_bytes cenc cdec S_staking_EvidenceDoubleSign w_evidence_sorted = false /\
+  decode_t S_state_Validator w_validator = None /\
+  decode_t S_state_ValidatorIndex w_index = None /\
+  decode_t S_staking_EvidenceDoubleSign w_evidence = None.
 Proof. split; [eexists; vm_compute; reflexivity|]. repeat split; vm_compute; reflexivity. Qed.
 Print Assumptions C14_nonvacuous_holds_outside.
 
@@ -178,14 +196,23 @@ Example C14_nonvacuous_strict :
   In (26, S_staking_Message) all_schemas /\ existsb (N.eqb 26) lenient_types = false /\
   strict S_staking_Message = true /\
   decode_t S_staking_Message [194; 1; 128] = Some (VList [VNum 1; VBytes []]) /\
-  strict S_types_Header = true /\ strict S_ucon_UconValidators = true.
+  strict S_types_Header = true /\ strict S_ucon_UconValidators = true /\
+  strict S_state_Validator = true /\ strict S_state_ValidatorIndex = true /\
+  strict S_state_Validators = true.
 Proof.
   split; [unfold all_schemas; do 26 right; left; reflexivity|]. repeat split; vm_compute; reflexivity.
 Qed.
 Print Assumptions C14_nonvacuous_strict.
 
 Example C14_nonvacuous_findings :
-  (exists v, cdec id_Validator (VList [VNil; VNum 5]) = Some v) /\
-  sorted_strict [[1; 2]; [1; 3]; [2]] = true /\ lenient_t (SOpt (SArr 20)) (Lst []) = true.
-Proof. split; [eexists; reflexivity|]. split; vm_compute; reflexivity. Qed.
+  cdec id_Validator (VList [VNil; VNum 1]) = Some (VList [VNil; VBool true]) /\
+  cdec id_Validator (VList [VNil; VNum 5]) = None /\
+  sorted_strict [[1; 2]; [1; 3]; [2]] = true /\ sorted_strict [[2]; [1]] = false /\
+  normalising id_Validator = false /\ normalising id_ValidatorIndex = false /\
+  lenient_t (SOpt (SArr 20)) (Lst []) = true /\
+  (exists kvs, map_opt as_sign [VList [VBytes (repeat 0 32); VBytes [1]]] = Some kvs /\
+               sorted_strict (map fst kvs) = true).
+Proof.
+  repeat split; try (vm_compute; reflexivity). eexists. split; vm_compute; reflexivity.
+Qed.
 Print Assumptions C14_nonvacuous_findings.
